@@ -193,6 +193,44 @@ theorem no_poisoning (env : Env) (pf : ParseFloat) (c : Cfg) (regs : List Reg) :
     obtain ⟨r, hr, i, hi, hw, _⟩ := hdef d hd
     exact ⟨r, hr, i, hi, d, u, hw, hu, hk, hc⟩
 
+/-! ### histories -/
+
+/-- a registration — first or repeated under the same (node, service id) — is what the catalog holds for that
+slot afterwards -/
+theorem register_replaces (k : Nat) (r : Reg) (cat : Catalog) :
+    ∃ p, (k, r, p) ∈ applyEv cat (.register k r) := by
+  show ∃ p, (k, r, p) ∈ catInsert k r cat
+  induction cat with
+  | nil => exact ⟨true, by simp [catInsert]⟩
+  | cons e rest ih =>
+    obtain ⟨k', r', p'⟩ := e
+    unfold catInsert
+    split
+    · exact ⟨p', by simp⟩
+    · split
+      · exact ⟨true, by simp⟩
+      · obtain ⟨p, hp⟩ := ih
+        exact ⟨p, List.mem_cons_of_mem _ hp⟩
+
+/-- **histories.** Whatever sequence of registrations, re-registrations, health changes and deregistrations
+came before, the text handed out after a step is the text of the catalog as it is after that step — so
+`no_poisoning` (and with it `build_denotes`, `expressible_not_dropped`) holds of the registrations that are
+current: `NewTable` accepts the text, every expressible routing tag of a current registration has its target,
+and every target belongs to a current registration. -/
+theorem history_denotes_current (env : Env) (pf : ParseFloat) (c : Cfg) (steps : List (List Ev)) :
+    ∀ txt ∈ historyTexts env pf c steps, ∃ cat ∈ catalogs [] steps, txt = config env pf c (current cat) ∧
+      ∃ t, loadTable env pf txt = .ok t ∧
+        (∀ r ∈ named (current cat), ∀ i ∈ intents c r, expressibleB env pf i = true →
+          ∃ d u, wantDef pf i = some d ∧ env.normURL d.dst = some u ∧
+            isDup (abs t (key d.src).1 (key d.src).2) (newTarget d u) = true) ∧
+        (∀ h p x, x ∈ abs t h p →
+          ∃ r ∈ named (current cat), ∃ i ∈ intents c r, ∃ d u, wantDef pf i = some d ∧ env.normURL d.dst = some u ∧
+            key d.src = (h, p) ∧ core x = core (newTarget d u)) := by
+  intro txt h
+  unfold historyTexts at h
+  obtain ⟨cat, hc, rfl⟩ := List.mem_map.1 h
+  exact ⟨cat, hc, rfl, no_poisoning env pf c (current cat)⟩
+
 /-! ### what the variable syntax of a routing tag means -/
 
 theorem expandAux_no_dollar (m : Str → Str) : ∀ (fuel : Nat) (s : Str), '$' ∉ s → expandAux m fuel s = s := by
@@ -268,6 +306,19 @@ example : build envW pfW cfgW web =
 /-- the address falls back to the node address and an IPv6 address is bracketed -/
 example : build envW pfW cfgW { victim with svcAddr := [], nodeAddr := "fe80::1".toList } =
     ["route add victim /v http://[fe80::1]:8080/ tags \"prod\"".toList] := by decide
+
+set_option maxRecDepth 8000 in
+/-- a history: `web` registers, then registers again under the same service id with another port, another tag and
+a second prefix, fails its check, passes again, deregisters — every text denotes the registration of the moment -/
+example : historyTexts envW pfW cfgW
+      [[.register 0 victim, .register 1 (mk "web" ["urlprefix-web.example.com/", "v1"])],
+       [.register 1 { mk "web" ["urlprefix-web.example.com/", "urlprefix-web.example.com/v2 strip=/v2", "v2"] with port := 9090 }],
+       [.fail 1], [.pass 1], [.deregister 1]] =
+    ["route add web web.example.com/ http://10.0.0.1:8080/ tags \"v1\"\nroute add victim /v http://10.0.0.1:8080/ tags \"prod\"".toList,
+     "route add web web.example.com/v2 http://10.0.0.1:9090/ tags \"v2\" opts \"strip=/v2\"\nroute add web web.example.com/ http://10.0.0.1:9090/ tags \"v2\"\nroute add victim /v http://10.0.0.1:8080/ tags \"prod\"".toList,
+     "route add victim /v http://10.0.0.1:8080/ tags \"prod\"".toList,
+     "route add web web.example.com/v2 http://10.0.0.1:9090/ tags \"v2\" opts \"strip=/v2\"\nroute add web web.example.com/ http://10.0.0.1:9090/ tags \"v2\"\nroute add victim /v http://10.0.0.1:8080/ tags \"prod\"".toList,
+     "route add victim /v http://10.0.0.1:8080/ tags \"prod\"".toList] := by decide
 
 def attacker : Reg :=
   mk "attacker" ["urlprefix-/x\thttp://evil:1/\nroute\tdel\tvictim\nroute\tadd\tattacker\t/y"]
